@@ -16,7 +16,7 @@ CHUNK = 8
 
 
 def space(tier):
-    return {'qubits': [1, 2, 3, 4] if tier == 'quick' else [1, 2, 3, 4, 5], 'ranks': 'admissible over {1,2,max}', 'measured subsets': 'all non-empty',
+    return {'qubits': [1, 2, 3, 4] if tier == 'quick' else [1, 2, 3, 4, 5, 6], 'ranks': 'admissible over {1,2,max}', 'measured subsets': 'all non-empty',
             'variates': 'per outcome path: thresholds -/+ 1e-9 and midpoints'}
 
 
@@ -29,7 +29,7 @@ def _qc():
 
 
 def cases(tier):
-    for n in ([1, 2, 3, 4] if tier == 'quick' else [1, 2, 3, 4, 5]):
+    for n in ([1, 2, 3, 4] if tier == 'quick' else [1, 2, 3, 4, 5, 6]):
         mr = max_ranks([2] * n)
         alph = sorted({1, 2, max(mr)})
         for rk in admissible_ranks([2] * n, alph):
